@@ -713,7 +713,10 @@ def hints_module_owner(prog: Program, rep: Report, rule: str):
         if any(e[0] in ("caught", "suppressed") for e in p.events):
             continue  # (the evaluation itself failed: the raw annotations are all there is)
         stores = [e for e in p.events if e[0] == "setitem"]
-        if stores and not T.contains(stores[-1][3], is_eval):
+        # (the statement form chooses the carrier on the path: where the object is known to be no class it is its own carrier)
+        not_class = any((not val) and T.is_call_to(a, "inspect.isclass") and a[2][:1] == (obj,) for a, val in atoms_)
+        own_eval = lambda y: T.is_call_to(y, "typing.get_type_hints") and y[2][:1] == (obj,) and not_class  # noqa: E731
+        if stores and not T.contains(stores[-1][3], is_eval) and not T.contains(stores[-1][3], own_eval):
             evaluated = False
     # the carrier is the constructor *for a class* and the object itself otherwise (not the other way round), and the evaluated
     # hint is fetched under the parameter's name, the raw annotation being the fallback
